@@ -479,6 +479,11 @@ class Inliner:
                     continue
                 call, sink = st.value, ("discard",)
             elif isinstance(st, ast.Assign) and isinstance(st.value, ast.Call):
+                virt = self._devirtualise(st.value, mod, cls, host, ("assign", st.targets))
+                if virt is not None:
+                    out += virt
+                    changed = True
+                    continue
                 call, sink = st.value, ("assign", st.targets)
             elif isinstance(st, ast.Return) and isinstance(st.value, ast.Call):
                 call, sink = st.value, ("return",)
@@ -496,9 +501,9 @@ class Inliner:
                 out.append(st)
         return out, changed
 
-    def _devirtualise(self, call: ast.Call, mod, cls, host) -> Optional[List[ast.stmt]]:
-        """A statement `self._hook(args)` whose private method is defined for the host's class and overridden in one or two
-        subclasses is the template-method spelling of an isinstance dispatch:
+    def _devirtualise(self, call: ast.Call, mod, cls, host, sink=("discard",)) -> Optional[List[ast.stmt]]:
+        """A statement `self._hook(args)` (or `x = self._hook(args)`) whose private method is defined for the host's class and
+        overridden in one or two subclasses is the template-method spelling of an isinstance dispatch:
             if isinstance(self, Sub): <Sub._hook inlined>  else: <Base._hook inlined>"""
         f = call.func
         if not (isinstance(f, ast.Attribute) and isinstance(f.value, ast.Name) and f.value.id == "self" and cls is not None
@@ -526,10 +531,10 @@ class Inliner:
             if fn.decorator_list or (fn.args.args and fn.args.args[0].arg != "self"):
                 return None
             if not body_of(fn):
-                return [ast.copy_location(ast.Pass(), call)]
+                return [ast.copy_location(ast.Pass(), call)] if sink[0] == "discard" else None
             if not self._eligible(fn, True):
                 return None
-            return self._expand(call, fn, f.value, ("discard",), fn.name, host)
+            return self._expand(call, fn, f.value, sink, fn.name, host)
         alts = []
         for d in subs + [base]:
             e = expand(d[2])
